@@ -649,7 +649,7 @@ pub fn large_seeds(al: &Alpha, which: &[usize]) -> Vec<LargeSeed> {
                         m.add_answer(Record::from_rdata(hn("blob.z."), 1, RData::NULL(NULL::with(blob))));
                     }
                 }
-                let n = if w == 0 { 620 } else { 420 };
+                let n = if w == 0 { 440 } else { 420 };
                 for i in 0..n {
                     let base = &recs[i % recs.len()].record;
                     if base.record_type() == RecordType::SIG {
